@@ -356,8 +356,9 @@ pub fn to_model_events(trace: &[String]) -> String {
             ("drv", "scrub") => out.push(format!("drvscrub {}", w[2])),
             ("drv", "op") => {
                 let fail = trace.get(i + 1).map(|n| n == "drv end senderr").unwrap_or(false);
-                out.push(format!("drvop {} {} {}", w[2], w[3], if fail { "fail" } else { "ok" }));
-                if fail {
+                let skipped = trace.get(i + 1).map(|n| n == "drv opskipped").unwrap_or(false);
+                out.push(format!("drvop {} {} {}", w[2], w[3], if fail { "fail" } else if skipped { "skipped" } else { "ok" }));
+                if fail || skipped {
                     i += 1;
                 }
             }
